@@ -144,13 +144,29 @@ func stubReadAll(r io.Reader) ([]byte, error) {
 
 // vBody is a request body: raw bytes for media uploads, a decode function for JSON bodies.
 type vBody struct {
+	wire   []byte // native replay only: the bytes on the wire
+	built  bool
+	off    int
 	gz     bool // the wire bytes are a gzip stream of raw / of the JSON document
 	raw    []byte
 	decode func(v interface{}) error
 }
 
-func (b *vBody) Read(p []byte) (int, error) { return 0, io.EOF }
-func (b *vBody) Close() error               { return nil }
+func (b *vBody) Read(p []byte) (int, error) {
+	if vSymbolic() {
+		return 0, io.EOF // decoders and io.ReadAll are stubbed: nothing reads the wire bytes
+	}
+	if !b.built {
+		b.wire, b.built = vNativeBytes(b), true
+	}
+	if b.off >= len(b.wire) {
+		return 0, io.EOF
+	}
+	n := copy(p, b.wire[b.off:])
+	b.off += n
+	return n, nil
+}
+func (b *vBody) Close() error { return nil }
 
 // ---- page tokens: an injective pair (the proto+base64 round trip is assumed) ----
 
@@ -195,11 +211,12 @@ func stubCacheRemove(c *gcache.LRUCache, key interface{}) bool {
 // ---- response recorder ----
 
 type vRecorder struct {
-	h      http.Header
-	code   int
-	bodies []interface{}
-	raw    []byte
-	writes int
+	decoded bool
+	h       http.Header
+	code    int
+	bodies  []interface{}
+	raw     []byte
+	writes  int
 }
 
 func vNewRecorder() *vRecorder { return &vRecorder{h: http.Header{}} }
@@ -219,9 +236,24 @@ func (r *vRecorder) WriteHeader(c int) {
 	}
 }
 
+// all returns the values written as JSON responses (native replay: decoded from the real JSON).
+func (r *vRecorder) all() []interface{} {
+	if !vSymbolic() && !r.decoded {
+		r.decoded = true
+		vNativeDecode(r)
+	}
+	return r.bodies
+}
+
+// payload returns the non-JSON bytes written (a media download).
+func (r *vRecorder) payload() []byte {
+	r.all()
+	return r.raw
+}
+
 // object returns the *storage.Object written as the JSON response, if any.
 func (r *vRecorder) object() *storage.Object {
-	for _, b := range r.bodies {
+	for _, b := range r.all() {
 		switch o := b.(type) {
 		case *storage.Object:
 			return o
@@ -234,7 +266,7 @@ func (r *vRecorder) object() *storage.Object {
 
 // errorBody reports whether an API error envelope was written.
 func (r *vRecorder) errorBody() bool {
-	return len(r.bodies) == 1 && r.object() == nil && r.code >= 300
+	return len(r.all()) == 1 && r.object() == nil && r.code >= 300
 }
 
 // ---- context ----
@@ -258,6 +290,10 @@ func vCtx() context.Context { return &vTestCtx{done: make(chan struct{})} }
 // ---- emulator construction and state snapshots ----
 
 func vNewEmu() *GcsEmu {
+	if !vSymbolic() {
+		return &GcsEmu{store: NewMemStore(), locks: gcsutil.NewTransientLockMap(), uploadIds: gcache.New(1024).LRU().Build(),
+			log: func(error, string, ...interface{}) {}}
+	}
 	return &GcsEmu{store: NewMemStore(), locks: gcsutil.NewTransientLockMap(), uploadIds: new(gcache.LRUCache),
 		log: func(error, string, ...interface{}) {}}
 }
